@@ -41,9 +41,13 @@ func init() {
 			{ID: "R18g", Floor: 1, Doc: "create: every committed block reaches the blockstore — the committer puts on every success path, or what it defers is flushed on every success return of writeFiles", Run: ruleR18g},
 			{ID: "R18h", Floor: 1, Doc: "extract: an entry name is judged by resolvePath only — no other condition on the name decides whether an entry is extracted (names that merely look unusual, like `a..b`, must round-trip)", Run: ruleR18h},
 			{ID: "R18i", Floor: 1, Doc: "extract: file content is copied into the created file itself (or a repository writer whose Write forwards every byte it claims to have written)", Run: ruleR18i},
+			{ID: "R18k", Floor: 1, Doc: "the stdin block storage files and finds blocks by multihash (string(c.Hash())), as `car create` de-duplicates them: a block stored under one CID answers a link that names the same bytes under another codec", Run: ruleR18k},
+			{ID: "R18l", Floor: 1, Doc: "create packs what the command line names: each path reaches BuildUnixFSRecursive unchanged (resolving a symlink argument would pack its target, under the target's name)", Run: ruleR18l},
+			{ID: "R18n", Floor: 1, Doc: "extraction from stdin is streaming: the stdin storage hands NewBlockReader a value whose type has no Seek method (a pipe is an *os.File: its Seek exists and fails, and a CARv2 piped into `car extract` died with `illegal seek`)", Run: ruleR18n},
 			{ID: "R18f", Floor: 1, Doc: "the extractor never removes, renames or truncates what it created", Run: ruleR18f},
 			{ID: "R18e", Floor: 1, Doc: "symlink target verbatim", Run: ruleR18e},
 			{ID: "R18j", Floor: 2, Doc: "the index that extract generates for a CARv1 records true section offsets (= R03b)", Run: ruleR03b},
+			{ID: "R18m", Floor: 3, Doc: "extracted files are created truncating (= R19f)", Run: ruleR19f},
 		},
 	})
 }
@@ -626,4 +630,126 @@ func ssaDeclKey(f *ssa.Function) string {
 	}
 	_, rn := recvTypeName(o)
 	return o.Pkg().Path() + "\t" + rn + "\t" + o.Name()
+}
+
+func ruleR18k(c *Ctx, r *Report) {
+	byHash := func(v ssa.Value) bool {
+		ok := false
+		for _, o := range origins(v, originOpts{through: func(call *ssa.Call, f *types.Func) []ssa.Value {
+			if funcIs(f, pkgCid, "Cid", "Hash") {
+				return nil
+			}
+			return callArgs(call.Common())
+		}}) {
+			if o.Kind == "call" && funcIs(o.Fn, pkgCid, "Cid", "Hash") {
+				ok = true
+			} else if o.Kind == "call" && o.Fn != nil && (o.Fn.Name() == "KeyString" || o.Fn.Name() == "Bytes" || o.Fn.Name() == "String") {
+				return false
+			} else if o.Kind == "param" {
+				// a raw key string used as is
+				if bt, isB := o.Val.Type().Underlying().(*types.Basic); isB && bt.Kind() == types.String {
+					return false
+				}
+			}
+		}
+		return ok
+	}
+	n, bad := 0, ""
+	for _, fn := range c.RepoFuncs() {
+		if fn.Pkg == nil || fn.Pkg.Pkg.Path() != pkgCmdCar {
+			continue
+		}
+		root := rootFuncOf(fn)
+		_, rn := "", ""
+		if o, ok := root.Object().(*types.Func); ok {
+			_, rn = recvTypeName(o)
+		}
+		if rn != "stdinReadStorage" && root.Name() != "NewStdinReadStorage" {
+			continue
+		}
+		eachInstr(fn, func(in ssa.Instruction) {
+			switch x := in.(type) {
+			case *ssa.MapUpdate:
+				n++
+				if !byHash(x.Key) {
+					bad = fmt.Sprintf("a block is filed at %s under a key that is not its multihash", c.Pos(x.Pos()))
+				}
+			case *ssa.Lookup:
+				if _, isMap := x.X.Type().Underlying().(*types.Map); isMap {
+					n++
+					if !byHash(x.Index) {
+						bad = fmt.Sprintf("a block is looked up at %s by a key that is not the multihash of the requested CID", c.Pos(x.Pos()))
+					}
+				}
+			}
+		})
+	}
+	if n == 0 {
+		r.Undec("stdin-store-key@cmd/car", "-", "block map of the stdin storage not found")
+		return
+	}
+	r.Check(bad == "", "stdin-store-key@cmd/car", "-", fmt.Sprintf("%d map accesses, all keyed by multihash", n), bad)
+}
+
+func ruleR18l(c *Ctx, r *Report) {
+	fn, err := c.Func(pkgCmdCar, "", "writeFiles")
+	if err != nil {
+		r.InfraFail("%v", err)
+		return
+	}
+	key := "paths-as-given@" + fnKey(fn)
+	n, bad := 0, ""
+	for _, g := range withAnon(fn) {
+		eachInstr(g, func(in ssa.Instruction) {
+			ci, ok := in.(ssa.CallInstruction)
+			if !ok {
+				return
+			}
+			f := calleeFunc(ci.Common())
+			if f == nil || f.Name() != "BuildUnixFSRecursive" {
+				return
+			}
+			n++
+			for _, o := range origins(ci.Common().Args[0], originOpts{}) {
+				if o.Kind != "param" && o.Kind != "freevar" {
+					bad = fmt.Sprintf("the path handed to BuildUnixFSRecursive at %s is computed (%s), not the argument as given", c.Pos(in.Pos()), o.Kind)
+				}
+			}
+		})
+	}
+	if n == 0 {
+		r.Undec(key, c.Pos(fn.Pos()), "BuildUnixFSRecursive call not found")
+		return
+	}
+	r.Check(bad == "", key, c.Pos(fn.Pos()), "paths handed to the builder as given", bad)
+}
+
+func ruleR18n(c *Ctx, r *Report) {
+	fn, err := c.Func(pkgCmdCar, "", "NewStdinReadStorage")
+	if err != nil {
+		r.InfraFail("%v", err)
+		return
+	}
+	key := "stdin-reader-not-seekable@" + fnKey(fn)
+	calls := callsToFunc(fn, modV2, "", "NewBlockReader")
+	if len(calls) == 0 {
+		r.Undec(key, c.Pos(fn.Pos()), "NewBlockReader call not found")
+		return
+	}
+	bad := ""
+	for _, ci := range calls {
+		arg := ci.Common().Args[0]
+		mi, ok := arg.(*ssa.MakeInterface)
+		if !ok {
+			bad = fmt.Sprintf("NewBlockReader at %s is given the input as it came (an interface value of unknown dynamic type): when that is stdin, it is an *os.File and the block reader seeks on a pipe", c.Pos(ci.Pos()))
+			continue
+		}
+		ms := c.Prog.MethodSets.MethodSet(mi.X.Type())
+		for i := 0; i < ms.Len(); i++ {
+			if ms.At(i).Obj().Name() == "Seek" {
+				bad = fmt.Sprintf("NewBlockReader at %s is given a %s, which has a Seek method", c.Pos(ci.Pos()), mi.X.Type())
+			}
+		}
+	}
+	r.Check(bad == "", key, c.Pos(calls[0].Pos()), "the block reader gets a reader without Seek", bad)
 }
